@@ -28,7 +28,7 @@ whole test suite passes with it, that its demonstration fails with it and passes
 quick tier of the named check (same driver, `VERIF_REPO` pointing at a worktree with only the patch applied).  **{nc} of {n} are
 reported as violations** (exit 1 with a natively reproduced replay); the others are listed with the reason.  Patches,
 demonstrations and the commands run are in /verif/seeded/<id>/.  Honest accounting: of those, 25 were caught by kernels that
-existed before the change was looked at; 8 (c02a_m1, c09a_m1, c04b_m1, c01b_m1, c06c_m1, c17c_m2, c05c_m1, c08b_m1) were first
+existed before the change was looked at; 9 (c02a_m1, c09a_m1, c04b_m1, c01b_m1, c06c_m1, c17c_m2, c05c_m1, c08b_m1, c11a_m1) were first
 missed, or expected to be missed, and are caught by a kernel or assertion added in response (named in the result column);
 the rest could not be reached by this technique for the reason given.
 
